@@ -565,6 +565,11 @@ pub fn run_ops(out: &mut Out, bin: &str, dir: &str, ops: &[Op]) {
                 });
                 out.distinct_case(&o.line);
             }
+            "tdump" if a == "dead" => {
+                out.emit(&o.line, a);
+                out.emit("spec.tsafe", "dead");
+                out.emit("spec.tmach", "dead");
+            }
             "tdump" => {
                 out.emit(&o.line, a);
                 // cursor inside the text, history index inside the history
